@@ -3,6 +3,7 @@
 package command
 
 import (
+	"bytes"
 	"encoding/json"
 	"fmt"
 	"sort"
@@ -397,6 +398,8 @@ type c03BurstCase struct {
 	Seed    int64  `json:"rand_seed"`
 	// C06: every reply is followed by a runt (the same frame cut inside its headers) that must not produce a record
 	Runts bool `json:"runt_after_every_reply,omitempty"`
+	// every 7th reply is longer on the wire than the capture length the scan asks for (jumbo frame / padded ARP)
+	Jumbo bool `json:"every_7th_reply_longer_than_the_snap_length,omitempty"`
 }
 
 func c03BurstCheck(c c03BurstCase) *kit.Verdict {
@@ -418,13 +421,30 @@ func c03BurstCheck(c c03BurstCase) *kit.Verdict {
 			copy(sm[:], mac)
 			fr = append(wire.Eth{Dst: [6]byte{2, 0, 0, 0, 0, 1}, Src: sm, Type: wire.EtherARP}.Bytes(),
 				wire.ARP{HType: 1, PType: 0x0800, HLen: 6, PLen: 4, Op: 2, SHA: mac, SPA: ipb[:], THA: []byte{2, 0, 0, 0, 0, 1}, TPA: []byte{10, 250, 0, 1}}.Bytes()...)
+			if c.Jumbo && i%7 == 3 {
+				fr = append(fr, make([]byte, 300)...) // link-layer padding beyond the ARP body
+			}
 		case "icmp":
 			s4, d4 := gram.U32Bytes(src), [4]byte{10, 250, 0, 1}
-			ip := wire.IPv4{ID: uint16(i), Flags: 2, TTL: uint8(1 + i%250), Proto: wire.ProtoICMP, Src: s4, Dst: d4}.Bytes(wire.ICMP{Type: []uint8{0, 3, 11, 13, 14, 5, 12}[i/250%7], Code: uint8(i / 1750), ID: 1, Seq: uint16(i)}.Bytes([]byte("burst")))
+			pay := []byte("burst")
+			if c.Jumbo && i%7 == 3 {
+				pay = bytes.Repeat([]byte("J"), 3000)
+			}
+			ip := wire.IPv4{ID: uint16(i), Flags: 2, TTL: uint8(1 + i%250), Proto: wire.ProtoICMP, Src: s4, Dst: d4}.Bytes(wire.ICMP{Type: []uint8{0, 3, 11, 13, 14, 5, 12}[i/250%7], Code: uint8(i / 1750), ID: 1, Seq: uint16(i)}.Bytes(pay))
 			fr = append(wire.Eth{Dst: [6]byte{2, 0, 0, 0, 0, 1}, Src: [6]byte{2, 0, 0, 0, 0, 2}, Type: wire.EtherIPv4}.Bytes(), ip...)
 		default:
 			src = uint32(10<<24 | 9<<16) // one target, 3000 ports
 			fr = c16Reply(kind, true, src, uint16(1000+i%3000))
+			if c.Jumbo && i%7 == 3 {
+				// the same reply carrying 4000 bytes of data
+				s4, d4 := gram.U32Bytes(src), [4]byte{10, 250, 0, 1}
+				fl := uint16(wire.RST | wire.ACK)
+				if kind == "tcpsyn" {
+					fl = wire.SYN | wire.ACK
+				}
+				body := wire.IPv4{ID: 9, Flags: 2, TTL: 61, Proto: wire.ProtoTCP, Src: s4, Dst: d4}.Bytes(wire.TCP{SrcPort: uint16(1000 + i%3000), DstPort: 40000, Flags: fl, Window: 100}.Bytes(s4, d4, bytes.Repeat([]byte("J"), 4000)))
+				fr = append(wire.Eth{Dst: [6]byte{2, 0, 0, 0, 0, 1}, Src: [6]byte{2, 5, 5, 5, 5, 5}, Type: wire.EtherIPv4}.Bytes(), body...)
+			}
 			if i >= 3000 {
 				// flags differ for the second lap over the ports
 				fr = nil
